@@ -553,6 +553,10 @@ func (c *c04) randomPath(root *TVal, mode int) ([]pstep, bool) {
 				default:
 					wrong = pstep{Kind: 1, Idx: 0}
 				}
+				if cur.T.Kind != tMAP && t.Chance(1, 3, "path.wrong.binkey") {
+					// a raw-bytes map key aimed at something that is no map (whose bytes may well read as a map header)
+					wrong = pstep{Kind: 3, IKey: 0, Bin: []byte{0, 0, 0, byte(t.Intn(2, "path.wrong.binkey.v"))}}
+				}
 				return append(path, wrong), true
 			}
 		}
